@@ -108,6 +108,10 @@ func (s *scheduler) gate(point string) {
 		return
 	}
 	s.mu.Lock()
+	if s.free.Load() { // released while we were on our way here: releaseAll sets free BEFORE it takes the lock
+		s.mu.Unlock()
+		return
+	}
 	tid, ok := s.gid2tid[goid()]
 	if !ok {
 		s.mu.Unlock()
